@@ -77,12 +77,26 @@ func (r OpResult) tkey() string {
 // propagate; any other panic is an outcome of the operation.
 // opClock lets the watchdog see how long the library call in progress has been running.
 var opClock struct {
-	start int64 // unix nanoseconds of the call in progress, 0 when none (accessed atomically)
+	start      int64 // unix nanoseconds of the call in progress, 0 when none (accessed atomically)
+	longest    int64 // longest completed call in this process, nanoseconds (evidence: margin of the hang watchdog)
+	longestCPU int64 // see hangWatch
+}
+
+func opDone(t0 int64) {
+	atomic.StoreInt64(&opClock.start, 0)
+	d := time.Now().UnixNano() - t0
+	for {
+		old := atomic.LoadInt64(&opClock.longest)
+		if d <= old || atomic.CompareAndSwapInt64(&opClock.longest, old, d) {
+			return
+		}
+	}
 }
 
 func under(t *Tape, f func(r *OpResult)) (res OpResult) {
-	atomic.StoreInt64(&opClock.start, time.Now().UnixNano())
-	defer atomic.StoreInt64(&opClock.start, 0)
+	t0 := time.Now().UnixNano()
+	atomic.StoreInt64(&opClock.start, t0)
+	defer opDone(t0)
 	prev := simr.cur
 	simr.cur = t
 	m := mark()
